@@ -43,7 +43,7 @@ GUARDED = {"Append", "Convert", "ReadStriped", "WriteStriped"}
 def attribute(m, prefix_ops, blind_ops=()):
     """Properties a mismatch speaks about (see DESIGN.md section 4.2)."""
     op, cls = m["op"], m["cls"]
-    if op == "Observe" and blind_ops:
+    if op in ("Observe", "Sample", "Read", "ChanSample") and blind_ops and cls in ("res", "other", "self"):
         # the one observation that ends a blind history (no contents were looked at before): some unobserved call
         # left a state the specification does not allow - it speaks about every operation of that history
         props = {"C12"}
